@@ -9,6 +9,7 @@ Definition obs_eqb (a b : obs) : bool :=
   match a, b with
   | OSetEpoch x, OSetEpoch y => x =? y
   | OYield f i, OYield g j => Bool.eqb f g && (i =? j)
+  | OSideSetEpoch c x, OSideSetEpoch d y => Nat.eqb c d && (x =? y)
   | _, _ => false
   end.
 
@@ -22,41 +23,84 @@ Fixpoint list_eqb {A} (eq : A -> A -> bool) (a b : list A) : bool :=
 Definition iters_fun (emin : Z) (iters : list (list Z)) : Z -> list Z :=
   fun e => nth (Z.to_nat (e - emin)) iters [].
 
+(* the iterations of a side sampler, as recorded *)
+Definition passes_fun (l : list (list Z)) : nat -> list Z := fun k => nth k l [].
+
+(* one case:
+   constructor arguments; budgets assigned to the attributes AFTER construction
+   (None = untouched; exercises the loop's three-way end test with several
+   budgets, which the constructor itself refuses); iteration counts of the side
+   samplers before the run; result class (0 ok, 1 NotImplementedError,
+   2 AssertionError); first epoch and the main sampler's iterations from there;
+   the observed stream; list(batch_sampler); (index, dataset, sample) resolved
+   through sampler.dataset; sampler.index_offsets; batches delivered by
+   get_data_loader as (collator tag, samples) *)
 Definition case_t : Type :=
-  cfg * start_arg * nat * Z * list (list Z) * list obs * option (list (list Z)) * list (Z * nat * Z).
+  ctor_args * option (option Z * option Z * option Z) * list nat * nat * Z * list (list Z) * list obs
+  * option (list (list Z)) * list (Z * nat * Z) * option (list Z) * option (list (nat * list Z)).
+
+Definition set_budgets (c : cfg) (b : option Z * option Z * option Z) : cfg :=
+  let '(x, y, z) := b in
+  {| cN := cN c; dsN := dsN c; cB := cB c; drop_last := drop_last c; cD := cD c;
+     bE := x; bU := y; bS := z; sides := sides c |}.
+
+Definition arg_start (a : ctor_args) : option start_arg :=
+  match a_start_epoch a, a_start_update a, a_start_sample a with
+  | None, None, None => Some NoStart
+  | Some e, None, None => Some (StartEpoch e)
+  | None, Some u, None => Some (StartUpdate u)
+  | None, None, Some s => Some (StartSample s)
+  | _, _, _ => None
+  end.
+
+Definition main_obs (c : cfg) (l : list obs) : list obs :=
+  filter (fun o => match o with OSetEpoch _ => true | OYield _ i => i <? dsN c | OSideSetEpoch _ _ => true end) l.
+
+Definition tagged_eqb (a b : nat * list Z) : bool := Nat.eqb (fst a) (fst b) && list_eqb Z.eqb (snd a) (snd b).
 
 (* 0 = implementation, model and spec agree; 1 = model differs from the
-   implementation; 2 = model agrees but the spec differs *)
-Definition main_obs (c : cfg) (l : list obs) : list obs :=
-  filter (fun o => match o with OSetEpoch _ => true | OYield _ i => i <? dsN c end) l.
-
-(* mode 4: compare only the main projection (C04); other modes: the whole stream *)
+   implementation; 2 = model agrees but the spec differs.
+   mode 4: compare only the main projection (C04); other modes: the whole stream *)
 Definition check_mode (mode : nat) (t : case_t) : nat :=
-  let '(c, start, result, emin, iters, o, bat, resolve) := t in
+  let '(a, ovr, pcs0, result, emin, iters, o, bat, resolve, offs, lb) := t in
   let mi := iters_fun emin iters in
   let fuel := S (length iters) in
-  match init_checkpoint c start with
-  | NotImplemented => if Nat.eqb result 1 then 0%nat else 1%nat
-  | AssertFail => if Nat.eqb result 2 then 0%nat else 1%nat
-  | Start e u s =>
+  match ctor a with
+  | CNotImplemented => if Nat.eqb result 1 then 0%nat else 1%nat
+  | CAssertFail => if Nat.eqb result 2 then 0%nat else 1%nat
+  | Ok c0 e u s =>
+      let c := match ovr with Some b => set_budgets c0 b | None => c0 end in
       if negb (Nat.eqb result 0) then 1%nat else
-      match sampler_iter c mi e u s with
+      match sampler_iter c mi e u s pcs0 with
       | None => 1%nat
       | Some tr =>
           let r := render tr in
+          let '(mb, ok) := batches r in
           let bat_ok := match bat with
-                        | Some bs => let '(mb, ok) := batches r in ok && list_eqb (list_eqb Z.eqb) mb bs
+                        | Some bs => ok && list_eqb (list_eqb Z.eqb) mb bs
                         | None => false end in
           let res_ok := forallb (fun '(idx, di, j) =>
                                    match concat_lookup c idx with
                                    | Some (di', j') => Nat.eqb di di' && (j =? j')
                                    | None => false end) resolve in
+          let offs_ok := match offs with Some l => list_eqb Z.eqb l (index_offsets c) | None => true end in
+          let lb_ok := match lb with
+                       | Some l => match loader_batches c mb with
+                                   | Some l' => list_eqb tagged_eqb l l'
+                                   | None => false end
+                       | None => true end in
           let proj := if Nat.eqb mode 4 then main_obs c else (fun l => l) in
-          if negb (list_eqb obs_eqb (proj r) (proj o) && (Nat.eqb mode 4 || (bat_ok && res_ok))) then 1%nat else
-          match spec_start c start, spec_iter c mi e fuel with
-          | Start e' u' s', Some tr' =>
-              if (e =? e') && (u =? u') && (s =? s') && list_eqb obs_eqb (proj (render tr')) (proj o) then 0%nat else 2%nat
-          | _, _ => 2%nat
+          if negb (list_eqb obs_eqb (proj r) (proj o) && offs_ok
+                   && (Nat.eqb mode 4 || (bat_ok && res_ok && lb_ok))) then 1%nat else
+          match arg_start a with
+          | None => 2%nat
+          | Some sa =>
+              match spec_start c sa, spec_iter c mi e pcs0 fuel with
+              | Start e' u' s', Some tr' =>
+                  if (e =? e') && (u =? u') && (s =? s') && list_eqb obs_eqb (proj (render tr')) (proj o)
+                  then 0%nat else 2%nat
+              | _, _ => 2%nat
+              end
           end
       end
   end.
